@@ -508,6 +508,42 @@ namespace hv
         }
     };
 
+    // a validation node whose ORDINARY output is a TS<NodeError> too: it publishes a "soft finding" (an error VALUE) for every third
+    // input value and throws on a fault-plan failure - its error output (exception_time_series) has the same schema
+    struct VValidate
+    {
+        static constexpr auto name = "v_validate";
+        HV_LIFECYCLE
+        static void eval(In<"a", TS<Int>> a, Scalar<"uid", Int> uid, NodeView nv, DateTime now, Out<TS<NodeError>> out)
+        {
+            maybe_fault(uid.value(), "eval");
+            const bool soft = ((a.value() % 3) + 3) % 3 == 0;
+            if (soft)
+            {
+                NodeErrorFields fields;
+                fields.signature_name = "v_validate";
+                fields.error_msg      = "soft_finding_" + std::to_string((long long)a.value());
+                Value value           = make_node_error_value(fields);
+                out.apply(value.view());
+            }
+            log_eval(uid.value(), nv, now, soft ? Int{1} : Int{0}, a);
+        }
+    };
+    // value-producing consumer of an error-shaped stream (the SAME definition and scalars wired on an ordinary TS<NodeError> output
+    // and on an error output must stay two nodes); out = length of the message, the message itself is logged
+    struct VErrLen
+    {
+        static constexpr auto name = "v_errlen";
+        HV_LIFECYCLE
+        static void eval(In<"e", TS<NodeError>> e, Scalar<"uid", Int> uid, NodeView nv, DateTime now, Out<TS<Int>> out)
+        {
+            std::string msg = e.base().value().as_bundle().at("error_msg").checked_as<Str>();
+            Line("u.err").i(uid.value()).i(gid_of(nv.graph())).i((long long)nv.node_index()).t(now).i(e.modified() ? 1 : 0).s(msg)
+                .s(std::string("-"));
+            out.set(Int{(long long)msg.size()});
+        }
+    };
+
     struct VRecErr
     {
         static constexpr auto name = "v_recerr";
